@@ -272,6 +272,7 @@ func (l *commitLog) append(segment *segment, ms []byte, entries []*entry) ([]int
 		}
 		offsets[i] = entry.Offset
 	}
+	crashPoint("append:epochs-assigned")
 	if err := segment.WriteMessageSet(ms, entries); err != nil {
 		return nil, err
 	}
